@@ -887,6 +887,21 @@ class ModelHist(Engine):
             return self.generate_ma(seed, tier)
         rw, ro, rs = stream(seed, "world"), stream(seed, "ops"), stream(seed, "sched")
         world = self.gen_vocab(rw)
+        # round 8 (scale): a DEEP chain of user types below T (3-13 levels; decided by a stream of its own), objects at
+        # the deepest levels and on a side branch next to the deepest one, and fluents typed with the deepest types
+        rdeep = stream(seed, "deep")
+        if rdeep.random() < 0.2:
+            k = rdeep.randint(3, 13)
+            parent = "T"
+            for j in range(k):
+                world["types"].append([f"D{j}", parent])
+                parent = f"D{j}"
+            world["types"].append(["Dx", f"D{k - 2}"])
+            deep_objs = [["da", f"D{k - 1}"], ["db", f"D{k - 2}"], ["dc", "Dx"], ["dd", f"D{rdeep.randrange(k)}"]]
+            rdeep.shuffle(deep_objs)
+            world["objects"][1:1] = deep_objs
+            world["fluents"][3:3] = [{"name": "fd0", "type": ["user", f"D{k - 1}"], "params": []},
+                                     {"name": "fd1", "type": ["user", rdeep.choice(["Dx", f"D{k - 2}"])], "params": []}]
         tmap = dict(world["types"])
         objs = world["objects"]
         fl_all = world["fluents"]
@@ -1696,6 +1711,34 @@ class ModelHist(Engine):
             timing = ro.choice([["start", 0], ["end", 0], ["start", 1]])
         elif container == "problem":
             timing = ["gstart", ro.randint(1, 3)]
+        # round 8 (scale): WIDE simulated effects.  A stream of its own, so that the runs that are not widened are
+        # exactly what they were.  The simulated effect writes 2-16 fluents: its original target (one the other
+        # effects aim at) among extra parameterless fluents that nothing else writes, at any position.
+        rwide = stream(seed, "wide")
+        if container != "problem" and rwide.random() < 0.3:
+            nx = rwide.randint(1, 15)
+            extra = [{"name": f"w{j}", "type": list(rwide.choice([["bool"], ["int", 0, 5], ["real", None, None]])), "params": []}
+                     for j in range(nx)]
+            world["fluents"] = world["fluents"] + extra
+            tm = dict(world["types"])
+
+            def widen(x):
+                fl, vs = list(x["simeff"]["fluents"]), list(x["simeff"]["values"])
+                for fd in extra:
+                    at = rwide.randint(0, len(fl))
+                    fl.insert(at, ["f", fd["name"]])
+                    vs.insert(at, rwide.choice(values_of(fd["type"], world["objects"], tm)))
+                x["simeff"] = {"fluents": fl, "values": vs}
+            cands = [f for f in focus if not f["params"]]
+            if cands and not any(x["ins"] == "simeff" for x in multiset):
+                fd = rwide.choice(cands)
+                vals = values_of(fd["type"], world["objects"], tm)
+                if vals:
+                    multiset.insert(rwide.randint(0, len(multiset)),
+                                    {"ins": "simeff", "simeff": {"fluents": [["f", fd["name"]]], "values": [rwide.choice(vals)]}})
+            for x in multiset + later:
+                if x["ins"] == "simeff":
+                    widen(x)
         return {"engine": self.name, "mode": "perm", "world": world, "container": container, "params": params,
                 "timing": timing, "multiset": multiset, "perm_seed": ro.randint(0, 10**6), "n_perms": ro.randint(1, 5),
                 "clone_after": ro.randrange(max(1, len(multiset))) if ro.random() < 0.3 else None,
